@@ -7,7 +7,7 @@ CONSTANTS Budget, Inits, MaxIx
 VARIABLES vwst, vwbud, vwnid, vwlast
 mcvars == <<vwst, vwbud, vwnid, vwlast>>
 Ix == 0..MaxIx
-O(name, i, x, y, z) == [op |-> name, id |-> i, a |-> x, b |-> y, c |-> z]
+O(name, i, x, y, z) == [op |-> name, id |-> i, a |-> x, b |-> y, c |-> z, d |-> -1]
 Do(o) ==
   /\ vwbud > 0
   /\ LET r == Apply(vwst, o, Dev) IN
@@ -22,7 +22,8 @@ Cand(s, nid) ==
      {O("add_texture", nid, 0, 0, 0), O("create_group", nid, 0, 0, 0), O("add_doodad", nid, 0, 0, 0), O("save_root", 0, 0, 0, 0)}
   \cup {O(n, 0, i, 0, 0) : n \in {"remove_texture", "remove_material", "remove_group", "remove_doodad", "remove_doodad_set", "save_group"}, i \in Ix}
   \cup {O("add_material", nid, t, u, 0) : t \in {x \in Ix : x < Len(s.tex)}, u \in {x \in {0, 1} : x < Len(s.tex)}}
-  \cup {O("add_group", nid, g, sh[1], sh[2]) : g \in Ix, sh \in {x \in {<<0, -1>>, <<3, 0>>, <<2, 1>>} : x[2] < Len(s.mat)}}
+  \cup {[O("add_group", nid, g, sh[1], sh[2]) EXCEPT !.d = sh[3]] :
+          g \in Ix, sh \in {x \in {<<0, -1, -1>>, <<3, 0, 0>>, <<2, 1, 2>>, <<1, -1, 1>>} : x[2] < Len(s.mat) /\ x[3] < Len(s.dd)}}
   \cup {O("add_vertex", nid, g, 0, 0) : g \in Ix}
   \cup {O("remove_vertex", 0, g, v, 0) : g \in Ix, v \in Ix}
   \cup {O("add_doodad_set", nid, q[1], q[2], 0) : q \in {x \in Ix \X Ix : x[1] + x[2] <= Len(s.dd)}}
@@ -51,6 +52,9 @@ Next == \/ AAddTexture \/ ARemoveTexture \/ AAddMaterial \/ ARemoveMaterial \/ A
 ITexRefs        == TexRefs(vwst)
 IMatRefs        == MatRefs(vwst)
 IIdxRefs        == IdxRefs(vwst)
+IDoodadRefs     == DoodadRefs(vwst)
+IAttrsParallel  == AttrsParallel(vwst)
+IPortalRefs     == PortalRefs(vwst)
 ISetRanges      == SetRanges(vwst)
 IHeaderCounts   == HeaderCounts(vwst)
 IGroupsParallel == GroupsParallel(vwst)
@@ -61,4 +65,5 @@ IPostOK         == vwlast.post
 IAsCodedHolds   == SetRanges(vwst) /\ VersionSane(vwst) /\ Len(vwst.gmod) = Len(vwst.gi)
                    /\ vwst.hdr.nmat = Len(vwst.mat) /\ vwst.hdr.ngrp = Len(vwst.gi) /\ vwst.hdr.ndd = Len(vwst.dd) /\ vwst.hdr.nds = Len(vwst.ds)
                    /\ (Len(vwst.tex) > 0 => TexRefs(vwst)) /\ (Len(vwst.mat) > 0 => MatRefs(vwst))
+                   /\ (Len(vwst.dd) > 0 => DoodadRefs(vwst)) /\ (Len(vwst.gi) > 0 => PortalRefs(vwst))
 =============================================================================
